@@ -75,7 +75,7 @@ def run(ctx):
         res = [("assert", int(i), a + " " + b, cfg, "") for i, a, b in fails]
         if hard and not fails:
             if len(lst) == 1:
-                res.append(("hard", lst[0]["i"], "rejected", cfg, "\n".join(errs[:4])))
+                res.append(("hard", lst[0]["i"], "rejected", cfg, "\n".join(hard[:4])))
             else:
                 h = len(lst) // 2
                 return comp((lst[:h], cfg)) + comp((lst[h:], cfg))
